@@ -58,6 +58,12 @@ def run(ctx):
         use = scr if (not quick or fam == "vector") else scr[:4]
         for i, ops in enumerate(use):
             jobs.append((algo, fam, ops, 4, ctx.seed + 100 + i, False))
+    # networks at the layer maximum (add_layer / remove_layer fall back to node mutations): chains of architecture mutations on
+    # every algorithm that trains critics alongside the policy
+    deep = [[("create", 1, 50 + j)] + [op for n in range(1, 9) for op in (("mutate", 1, "archl" if n % 3 else "arch"), ("learn", 1, n))] for j in range(1 if quick else 4)]
+    for algo in ("DDPG", "TD3", "PPO", "MADDPG", "MATD3", "IPPO"):
+        for j, ops in enumerate(deep):
+            jobs.append((algo, "deep", ops, 4, ctx.seed + 300 + j, False))
     traces = ec.run_scripts(jobs)
     for t, j in zip(traces, jobs):
         ctx.case((j[0], j[1], str(j[2])), nontrivial=any(o[0] in ("mutate", "mutpop") and o[-1] != "none" for o in j[2]))
